@@ -35,7 +35,8 @@ def build(case):
             if kind == "continuous":
                 root[ns[k]] = [x * UNIT for x in seq]
             else:
-                root[ns[k]] = seq
+                # symbols -> StateIdentity objects of the matrix's alphabet (as from_dict does)
+                root[ns[k]] = root.coerce_values(seq)
     for op in case["deco"]:
         apply_deco(root, op)
     return root
@@ -542,7 +543,10 @@ def summary(root, thin=False, shallow=False):
     out["subsets"] = [[k, v.label, sorted(v.character_indices), _anns(v, ctx)] for k, v in root.character_subsets.items()]
     out["chartypes"] = [c.label for c in root.character_types]
     if hasattr(root, "state_alphabets"):
-        out["alphabets"] = [len(a) if a is not None else None for a in root.state_alphabets]
+        out["alphabets"] = [None if a is None else [str(st) for st in a.state_iter()] for a in root.state_alphabets]
+        own = set(id(st) for a in root.state_alphabets if a is not None for st in a.state_iter())
+        # every cell is a state of one of the matrix's own alphabets
+        out["alphabet_owns_cells"] = all(id(v) in own for sq in root._taxon_sequence_map.values() for v in sq._character_values)
     if shallow:
         del out["comments"]
         return out
